@@ -1,0 +1,48 @@
+//go:build verif
+
+// Conversion lemmas (C14) for the protobuf serializer, written as functions: each converts a value to its protobuf message
+// with the package's From function and back with its To function. Their contracts (zz_verif_contracts.go) state that the
+// result equals the original. The functions are never called; they are compiled only with the build tag "verif" and exist
+// so that the verification-condition generator in /verif (govc) checks the real conversion functions against each other.
+
+package protobuf
+
+import "perun.network/go-perun/channel"
+
+func verifPBIndexMap(x []channel.Index) (y []channel.Index, err error) {
+	return ToIndexMap(FromIndexMap(x))
+}
+
+func verifPBBalance(x []channel.Bal) (y []channel.Bal, fromErr error) {
+	p, err := FromBalance(x)
+	if err != nil {
+		return nil, err
+	}
+	return ToBalance(p), nil
+}
+
+func verifPBBalances(x channel.Balances) (y channel.Balances, fromErr error) {
+	p, err := FromBalances(x)
+	if err != nil {
+		return nil, err
+	}
+	return ToBalances(p), nil
+}
+
+func verifPBSubAlloc(x channel.SubAlloc) (y channel.SubAlloc, fromErr, toErr error) {
+	p, err := FromSubAlloc(x)
+	if err != nil {
+		return y, err, nil
+	}
+	y, toErr = ToSubAlloc(p)
+	return y, nil, toErr
+}
+
+func verifPBAllocation(x channel.Allocation) (y *channel.Allocation, fromErr, toErr error) {
+	p, err := FromAllocation(x)
+	if err != nil {
+		return nil, err, nil
+	}
+	y, toErr = ToAllocation(p)
+	return y, nil, toErr
+}
